@@ -388,3 +388,885 @@ Proof.
     apply (proj2 (sort_eq_iff _ _ Nd Ne)). apply (proj2 DS). split; assumption.
 Qed.
 End Bridge.
+
+(* ---------- generic list facts ---------- *)
+Lemma forallb_false_intro {A} (f : A -> bool) l x : In x l -> f x = false -> forallb f l = false.
+Proof.
+  intros Hin Hf. destruct (forallb f l) eqn:E; [|reflexivity].
+  rewrite forallb_forall in E. rewrite (E x Hin) in Hf. discriminate.
+Qed.
+
+Lemma lookup_app {A} k (a b : list (str * A)) :
+  lookup k (a ++ b) = match lookup k a with Some v => Some v | None => lookup k b end.
+Proof.
+  induction a as [|[k' v] a IH]; simpl; [reflexivity|]. destruct (str_eqb k k'); [reflexivity|exact IH].
+Qed.
+
+Lemma merge_dims_app m new : merge_dims m new = new ++ m.
+Proof. induction new; simpl; congruence. Qed.
+
+Lemma find_map_snd {A B} (f : A * B -> bool) (g : B -> bool) (l : list (A * B)) :
+  (forall e, In e l -> f e = g (snd e)) ->
+  match find f l with Some e => Some (snd e) | None => None end = find g (map snd l).
+Proof.
+  induction l as [|e l IH]; intros H; simpl; [reflexivity|].
+  rewrite <- (H e (or_introl eq_refl)). destruct (f e); [reflexivity|].
+  apply IH. intros e' He'. apply H. right; exact He'.
+Qed.
+
+Lemma filter_map_snd {A B} (f : A * B -> bool) (g : B -> bool) (l : list (A * B)) :
+  (forall e, In e l -> f e = g (snd e)) -> map snd (filter f l) = filter g (map snd l).
+Proof.
+  induction l as [|e l IH]; intros H; simpl; [reflexivity|].
+  rewrite <- (H e (or_introl eq_refl)). destruct (f e); simpl; rewrite IH; try reflexivity;
+    intros e' He'; apply H; right; exact He'.
+Qed.
+
+Lemma find_none_existsb {A} (f : A -> bool) l : find f l = None <-> existsb f l = false.
+Proof.
+  induction l as [|x l IH]; simpl; [tauto|]. destruct (f x); simpl; [split; discriminate|exact IH].
+Qed.
+
+(* ---------- the model refines the specification ---------- *)
+Section Main.
+Variable hash : str -> str.
+Variable K : str -> Prop.
+Hypothesis Hinj : forall a b, K a -> K b -> hash a = hash b -> a = b.
+
+Definition gv (d : desc) : Prop := good K d /\ d_err d = false.
+Definition ids_of (ds : list desc) (x : str) : Prop := exists d, In d ds /\ x = hid hash d.
+
+Inductive disj : list (Z * list desc) -> Prop :=
+| disj_nil : disj []
+| disj_cons c l : (forall c' x, In c' l -> ids_of (snd c) x -> ids_of (snd c') x -> False) -> disj l -> disj (c :: l).
+
+Record Inv (r : registry) (s : sstate) : Prop := {
+  inv_colls : map snd (r_colls r) = s_regd s;
+  inv_keys : forall e, In e (r_colls r) -> forall x, In x (fst e) <-> ids_of (snd (snd e)) x;
+  inv_descids : forall x, In x (r_descids r) <-> exists c, In c (s_regd s) /\ ids_of (snd c) x;
+  inv_dims1 : forall n h, lookup n (r_dims r) = Some h -> exists e, In e (s_ever s) /\ d_fq e = n;
+  inv_dims2 : forall e, In e (s_ever s) -> lookup (d_fq e) (r_dims r) = Some (hdim hash e);
+  inv_unch : r_unchecked r = s_unch s;
+  inv_gv_regd : forall c d, In c (s_regd s) -> In d (snd c) -> gv d;
+  inv_gv_ever : forall e, In e (s_ever s) -> gv e;
+  inv_disj : disj (s_regd s)
+}.
+
+Lemma Inv_empty : Inv empty_registry empty_sstate.
+Proof.
+  constructor; simpl; try tauto; try reflexivity; try discriminate; try constructor.
+  - tauto.
+  - intros (c & [] & _).
+Qed.
+
+Lemma hid_same d e : gv d -> gv e -> (hid hash d = hid hash e <-> same_ident d e = true).
+Proof.
+  intros [Gd Ed] [Ge Ee]. rewrite <- (hid_eqb hash K Hinj d e Gd Ge Ed Ee). symmetry. apply str_eqb_eq.
+Qed.
+
+Lemma hdim_agree d e : gv d -> gv e -> (hdim hash d = hdim hash e <-> agree d e = true).
+Proof.
+  intros [Gd Ed] [Ge Ee]. rewrite <- (hdim_eqb hash K Hinj d e Gd Ge Ed Ee). symmetry. apply str_eqb_eq.
+Qed.
+
+Lemma in_descs_ids d ds : gv d -> (forall e, In e ds -> gv e) -> (in_descs d ds = true <-> ids_of ds (hid hash d)).
+Proof.
+  intros Gd Gs. unfold in_descs, ids_of. rewrite existsb_exists. split.
+  - intros (e & He & S). exists e. split; [exact He|]. apply hid_same; auto.
+  - intros (e & He & S). exists e. split; [exact He|]. apply hid_same; auto.
+Qed.
+
+Lemma desc_set_eq_ids ds ds' : (forall d, In d ds -> gv d) -> (forall d, In d ds' -> gv d) ->
+  (desc_set_eq ds ds' = true <-> (forall x, ids_of ds x <-> ids_of ds' x)).
+Proof.
+  intros G G'. unfold desc_set_eq. rewrite andb_true_iff, !forallb_forall. split.
+  - intros [H1 H2] x. split; intros (d & Hd & ->).
+    + apply in_descs_ids; auto.
+    + apply in_descs_ids; auto.
+  - intros H. split; intros d Hd.
+    + apply in_descs_ids; auto. apply H. exists d; auto.
+    + apply in_descs_ids; auto. apply H. exists d; auto.
+Qed.
+
+Lemma seteq_key ids k ds ds' : (forall d, In d ds -> gv d) -> (forall d, In d ds' -> gv d) ->
+  (forall x, In x ids <-> ids_of ds x) -> (forall x, In x k <-> ids_of ds' x) ->
+  seteq_strs ids k = desc_set_eq ds ds'.
+Proof.
+  intros G G' H1 H2. apply eq_iff_eq_true. rewrite seteq_strs_spec, (desc_set_eq_ids ds ds' G G'). split.
+  - intros H x. rewrite <- H1, <- H2. apply H.
+  - intros H x. rewrite H1, H2. apply H.
+Qed.
+
+(* the descriptor loop of Register *)
+Lemma reg_loop_done r : forall ds ni nd dup ni' nd' dup',
+  reg_loop hash r ds ni nd dup = LDone ni' nd' dup' ->
+  all_valid ds = true /\
+  (forall x, In x ni' <-> In x ni \/ ids_of ds x) /\
+  dup' = dup || existsb (fun d => str_in (hid hash d) (r_descids r)) ds /\
+  (forall n h, lookup n nd = Some h -> lookup n nd' = Some h) /\
+  (forall n h, lookup n nd' = Some h -> lookup n nd = Some h \/
+      (lookup n (r_dims r) = None /\ exists d, In d ds /\ d_fq d = n /\ h = hdim hash d)) /\
+  (forall d, In d ds -> match lookup (d_fq d) (r_dims r) with
+                        | Some h => h = hdim hash d
+                        | None => lookup (d_fq d) nd' = Some (hdim hash d) end).
+Proof.
+  induction ds as [|d ds IH]; intros ni nd dup ni' nd' dup' H; simpl in H.
+  - inversion H; subst. repeat split; try tauto.
+    + intros [H'|(d & [] & _)]; exact H'.
+    + simpl. rewrite orb_false_r. reflexivity.
+    + intros d [].
+  - destruct (d_err d) eqn:Ed; [discriminate|].
+    set (ni2 := if str_in (hid hash d) ni then ni else hid hash d :: ni) in *.
+    assert (Hni2 : forall x, In x ni2 <-> In x ni \/ x = hid hash d).
+    { intros x. unfold ni2. destruct (str_in (hid hash d) ni) eqn:E.
+      - apply str_in_In in E. split; [tauto|]. intros [H'| ->]; assumption.
+      - simpl. split; [intros [<-|H']; tauto|intros [H'| ->]; tauto]. }
+    assert (Hids : forall x, (In x ni2 \/ ids_of ds x) <-> (In x ni \/ ids_of (d :: ds) x)).
+    { intros x. rewrite Hni2. unfold ids_of. simpl. split.
+      - intros [[H'| ->]|(e & He & ->)]; [tauto|right; exists d; tauto|right; exists e; tauto].
+      - intros [H'|(e & [<-|He] & ->)]; [tauto|tauto|right; exists e; tauto]. }
+    assert (Hval : all_valid ds = true -> all_valid (d :: ds) = true).
+    { intros V. unfold all_valid in *. simpl. unfold valid at 1. rewrite Ed, V. reflexivity. }
+    assert (Hdup : forall b, b = (dup || str_in (hid hash d) (r_descids r)) || existsb (fun d => str_in (hid hash d) (r_descids r)) ds ->
+                    b = dup || existsb (fun d => str_in (hid hash d) (r_descids r)) (d :: ds)).
+    { intros b ->. simpl. rewrite orb_assoc. reflexivity. }
+    destruct (lookup (d_fq d) (r_dims r)) as [h|] eqn:L1.
+    + destruct (str_eqb h (hdim hash d)) eqn:E1; [|discriminate]. apply str_eqb_eq in E1.
+      apply IH in H. destruct H as (V & I & D & X1 & X2 & X3).
+      split; [auto|]. split; [intros x; rewrite I; apply Hids|]. split; [auto|]. split; [exact X1|]. split.
+      * intros n h' Hn. destruct (X2 n h' Hn) as [G|(G1 & e & He & G2)]; [left; exact G|].
+        right. split; [exact G1|]. exists e. simpl. tauto.
+      * intros e [<-|He]; [rewrite L1; exact E1|apply X3; exact He].
+    + destruct (lookup (d_fq d) nd) as [h|] eqn:L2.
+      * destruct (str_eqb h (hdim hash d)) eqn:E1; [|discriminate]. apply str_eqb_eq in E1.
+        apply IH in H. destruct H as (V & I & D & X1 & X2 & X3).
+        split; [auto|]. split; [intros x; rewrite I; apply Hids|]. split; [auto|]. split; [exact X1|]. split.
+        -- intros n h' Hn. destruct (X2 n h' Hn) as [G|(G1 & e & He & G2)]; [left; exact G|].
+           right. split; [exact G1|]. exists e. simpl. tauto.
+        -- intros e [<-|He]; [rewrite L1; apply X1; rewrite L2, E1; reflexivity|apply X3; exact He].
+      * apply IH in H. destruct H as (V & I & D & X1 & X2 & X3).
+        split; [auto|]. split; [intros x; rewrite I; apply Hids|]. split; [auto|]. split; [|split].
+        -- intros n h' Hn. apply X1. simpl. destruct (str_eqb n (d_fq d)) eqn:E; [|exact Hn].
+           apply str_eqb_eq in E. subst n. rewrite L2 in Hn. discriminate.
+        -- intros n h' Hn. destruct (X2 n h' Hn) as [G|(G1 & e & He & G2)].
+           ++ simpl in G. destruct (str_eqb n (d_fq d)) eqn:E; [|left; exact G].
+              apply str_eqb_eq in E. subst n. inversion G; subst. right. split; [exact L1|]. exists d. simpl. tauto.
+           ++ right. split; [exact G1|]. exists e. simpl. tauto.
+        -- intros e [<-|He]; [|apply X3; exact He]. rewrite L1. apply X1. simpl. rewrite str_eqb_refl. reflexivity.
+Qed.
+
+Lemma reg_loop_err r : forall ds ni nd dup e,
+  reg_loop hash r ds ni nd dup = LErr e ->
+  (e = RInvalid /\ all_valid ds = false) \/
+  (e = RInconsistent /\ exists d h, In d ds /\ d_err d = false /\ h <> hdim hash d /\
+     (lookup (d_fq d) (r_dims r) = Some h \/ lookup (d_fq d) nd = Some h \/
+      exists d0, In d0 ds /\ d_err d0 = false /\ d_fq d0 = d_fq d /\ h = hdim hash d0)).
+Proof.
+  induction ds as [|d ds IH]; intros ni nd dup e H; simpl in H; [discriminate|].
+  destruct (d_err d) eqn:Ed.
+  { inversion H; subst. left. split; [reflexivity|]. unfold all_valid. simpl. unfold valid at 1. rewrite Ed. reflexivity. }
+  assert (Hinv : all_valid ds = false -> all_valid (d :: ds) = false).
+  { intros V. unfold all_valid in *. simpl. rewrite V. apply andb_false_r. }
+  assert (Hlift : forall nd2,
+    (forall n h, lookup n nd2 = Some h -> lookup n nd = Some h \/ (n = d_fq d /\ h = hdim hash d)) ->
+    ((e = RInvalid /\ all_valid ds = false) \/
+     (e = RInconsistent /\ exists d1 h, In d1 ds /\ d_err d1 = false /\ h <> hdim hash d1 /\
+        (lookup (d_fq d1) (r_dims r) = Some h \/ lookup (d_fq d1) nd2 = Some h \/
+         exists d0, In d0 ds /\ d_err d0 = false /\ d_fq d0 = d_fq d1 /\ h = hdim hash d0))) ->
+    ((e = RInvalid /\ all_valid (d :: ds) = false) \/
+     (e = RInconsistent /\ exists d1 h, In d1 (d :: ds) /\ d_err d1 = false /\ h <> hdim hash d1 /\
+        (lookup (d_fq d1) (r_dims r) = Some h \/ lookup (d_fq d1) nd = Some h \/
+         exists d0, In d0 (d :: ds) /\ d_err d0 = false /\ d_fq d0 = d_fq d1 /\ h = hdim hash d0)))).
+  { intros nd2 Hnd [[E V]|(E & d1 & h & H1 & H2 & H3 & H4)]; [left; auto|].
+    right. split; [exact E|]. exists d1, h. split; [right; exact H1|]. split; [exact H2|]. split; [exact H3|].
+    destruct H4 as [G|[G|(d0 & G1 & G2 & G3 & G4)]].
+    - left; exact G.
+    - destruct (Hnd _ _ G) as [G'|[G1 G2]]; [right; left; exact G'|].
+      right; right. exists d. simpl. subst h. auto.
+    - right; right. exists d0. simpl. auto. }
+  destruct (lookup (d_fq d) (r_dims r)) as [h|] eqn:L1.
+  - destruct (str_eqb h (hdim hash d)) eqn:E1.
+    + apply IH in H. apply (Hlift nd); [intros; left; assumption|exact H].
+    + inversion H; subst. right. split; [reflexivity|]. exists d, h. apply str_eqb_neq in E1. simpl. auto 7.
+  - destruct (lookup (d_fq d) nd) as [h|] eqn:L2.
+    + destruct (str_eqb h (hdim hash d)) eqn:E1.
+      * apply IH in H. apply (Hlift nd); [intros; left; assumption|exact H].
+      * inversion H; subst. right. split; [reflexivity|]. exists d, h. apply str_eqb_neq in E1. simpl. auto 7.
+    + apply IH in H. apply (Hlift ((d_fq d, hdim hash d) :: nd)); [|exact H].
+      intros n h Hn. simpl in Hn. destruct (str_eqb n (d_fq d)) eqn:E; [|left; exact Hn].
+      apply str_eqb_eq in E. inversion Hn; subst. right; auto.
+Qed.
+
+Lemma spec_register_ne s cid ds : ds <> [] ->
+  spec_register s cid ds =
+    if negb (all_valid ds) then (SRejected, s) else
+    if negb (all_consistent s ds) then (SRejected, s) else
+    match find (fun c => desc_set_eq ds (snd c)) (s_regd s) with
+    | Some c => (SAlready (fst c), s)
+    | None => if clashes s ds then (SRejected, s)
+              else (SOk, mkS ((cid, ds) :: s_regd s) (ds ++ s_ever s) (s_unch s))
+    end.
+Proof. destruct ds; [contradiction|reflexivity]. Qed.
+
+Lemma filter_all {A} (f : A -> bool) l : forallb f l = true -> filter f l = l.
+Proof.
+  induction l as [|x l IH]; simpl; [reflexivity|]. rewrite andb_true_iff. intros [H1 H2].
+  rewrite H1, IH; auto.
+Qed.
+
+Lemma gv_of_valid ds : (forall d, In d ds -> good K d) -> forall d, In d (filter valid ds) -> gv d.
+Proof.
+  intros G d Hd. apply filter_In in Hd. destruct Hd as [Hd V]. split; [auto|].
+  unfold valid in V. apply negb_true_iff in V. exact V.
+Qed.
+
+Lemma register_step r s cid ds : Inv r s -> (forall d, In d ds -> good K d) ->
+  classify (fst (register hash r cid ds)) = fst (spec_register s cid ds) /\
+  kind_ok s ds (fst (register hash r cid ds)) = true /\
+  Inv (snd (register hash r cid ds)) (snd (spec_register s cid ds)).
+Proof.
+  intros I G. unfold register.
+  destruct (reg_loop hash r ds [] [] false) as [e|ni nd dup] eqn:L.
+  - apply reg_loop_err in L. destruct L as [[-> V]|(-> & d & h & Hd & Ed & Hne & Hsrc)].
+    + assert (Hn : ds <> []) by (intros ->; discriminate V).
+      rewrite (spec_register_ne s cid ds Hn), V. simpl. rewrite V. auto.
+    + assert (Hn : ds <> []) by (intros ->; destruct Hd).
+      assert (Gd : gv d) by (split; auto).
+      assert (Hdv : In d (filter valid ds)).
+      { apply filter_In. split; [exact Hd|]. unfold valid. rewrite Ed. reflexivity. }
+      assert (A : all_consistent s (filter valid ds) = false).
+      { unfold all_consistent. apply (forallb_false_intro _ _ d Hdv).
+        destruct Hsrc as [L1|[L2|(d0 & Hd0 & Ed0 & Fq & ->)]].
+        - destruct (inv_dims1 _ _ I _ _ L1) as (e0 & He0 & Fq).
+          pose proof (inv_dims2 _ _ I e0 He0) as L3. rewrite Fq, L1 in L3. inversion L3; subst h.
+          apply andb_false_intro1. unfold consistent_with. apply (forallb_false_intro _ _ e0 He0).
+          rewrite Fq, str_eqb_refl. simpl.
+          destruct (agree d e0) eqn:Ag; [|reflexivity]. exfalso. apply Hne. symmetry.
+          apply hdim_agree; [exact Gd|apply (inv_gv_ever _ _ I); exact He0|exact Ag].
+        - simpl in L2. discriminate.
+        - assert (Hd0v : In d0 (filter valid ds)).
+          { apply filter_In. split; [exact Hd0|]. unfold valid. rewrite Ed0. reflexivity. }
+          apply andb_false_intro2. unfold consistent_with. apply (forallb_false_intro _ _ d0 Hd0v).
+          rewrite Fq, str_eqb_refl. simpl.
+          destruct (agree d d0) eqn:Ag; [|reflexivity]. exfalso. apply Hne. symmetry.
+          apply hdim_agree; [exact Gd|split; auto|exact Ag]. }
+      rewrite (spec_register_ne s cid ds Hn). simpl. rewrite A. simpl.
+      destruct (all_valid ds) eqn:V; simpl; [|auto].
+      unfold all_valid in V. rewrite (filter_all _ _ V) in A. rewrite A. simpl. auto.
+  - destruct (reg_loop_done r ds [] [] false ni nd dup L) as (V & Iids0 & Dup & _ & X2 & X3).
+    assert (Iids : forall x, In x ni <-> ids_of ds x).
+    { intros x. rewrite Iids0. simpl. tauto. }
+    clear Iids0. simpl in Dup.
+    assert (GV : forall d, In d ds -> gv d).
+    { intros d Hd. apply (gv_of_valid ds G). unfold all_valid in V. rewrite (filter_all _ _ V). exact Hd. }
+    destruct ni as [|i0 ni0].
+    + assert (ds = []).
+      { destruct ds as [|d ds']; [reflexivity|]. exfalso. apply (proj2 (Iids (hid hash d))). exists d. simpl. auto. }
+      subst ds. simpl. split; [reflexivity|]. split; [reflexivity|].
+      destruct I. constructor; simpl; try assumption. rewrite inv_unch0. reflexivity.
+    + assert (Hn : ds <> []).
+      { intros ->. destruct (proj1 (Iids i0)) as (d & [] & _). left; reflexivity. }
+      cbv beta iota. remember (i0 :: ni0) as ni eqn:Eni. clear Eni i0 ni0.
+      rewrite (spec_register_ne s cid ds Hn), V.
+      assert (C : all_consistent s ds = true).
+      { unfold all_consistent. apply forallb_forall. intros d Hd. pose proof (X3 d Hd) as X.
+        apply andb_true_iff. split; unfold consistent_with; apply forallb_forall; intros e He.
+        - destruct (str_eqb (d_fq d) (d_fq e)) eqn:Fq; [|reflexivity]. simpl. apply str_eqb_eq in Fq.
+          pose proof (inv_dims2 _ _ I e He) as L3. rewrite <- Fq in L3. rewrite L3 in X.
+          apply hdim_agree; [apply GV; exact Hd|apply (inv_gv_ever _ _ I); exact He|]. symmetry; exact X.
+        - destruct (str_eqb (d_fq d) (d_fq e)) eqn:Fq; [|reflexivity]. simpl. apply str_eqb_eq in Fq.
+          pose proof (X3 e He) as X'. rewrite <- Fq in X'.
+          apply hdim_agree; [apply GV; exact Hd|apply GV; exact He|].
+          destruct (lookup (d_fq d) (r_dims r)); [congruence|]. rewrite X in X'. inversion X'; reflexivity. }
+      rewrite C. cbn [negb].
+      assert (F : match find (fun e => seteq_strs ni (fst e)) (r_colls r) with Some e => Some (snd e) | None => None end
+                  = find (fun c => desc_set_eq ds (snd c)) (s_regd s)).
+      { rewrite <- (inv_colls _ _ I). apply find_map_snd. intros e He.
+        apply seteq_key; [exact GV| |exact Iids|apply (inv_keys _ _ I); exact He].
+        intros d Hd. apply (inv_gv_regd _ _ I (snd e)); [|exact Hd]. rewrite <- (inv_colls _ _ I). apply in_map. exact He. }
+      unfold find_coll.
+      destruct (find (fun e => seteq_strs ni (fst e)) (r_colls r)) as [[k [c ds']]|]; rewrite <- F.
+      { simpl. auto. }
+      assert (D : dup = clashes s ds).
+      { rewrite Dup. unfold clashes. apply eq_iff_eq_true. rewrite !existsb_exists. split.
+        - intros (d & Hd & Hx). exists d. split; [exact Hd|]. apply str_in_In in Hx.
+          apply (inv_descids _ _ I) in Hx. destruct Hx as (c & Hc & Hx). apply existsb_exists. exists c. split; [exact Hc|].
+          apply in_descs_ids; [apply GV; exact Hd|intros e He; apply (inv_gv_regd _ _ I c); assumption|exact Hx].
+        - intros (d & Hd & Hx). exists d. split; [exact Hd|]. apply existsb_exists in Hx. destruct Hx as (c & Hc & Hx).
+          apply str_in_In. apply (inv_descids _ _ I). exists c. split; [exact Hc|].
+          apply in_descs_ids; [apply GV; exact Hd|intros e He; apply (inv_gv_regd _ _ I c); assumption|exact Hx]. }
+      rewrite <- D. destruct dup.
+      { simpl. rewrite V, C, <- D. auto. }
+      simpl. split; [reflexivity|]. split; [reflexivity|].
+      constructor; simpl.
+      * f_equal. apply (inv_colls _ _ I).
+      * intros e [<-|He] x; [simpl; apply Iids|apply (inv_keys _ _ I); exact He].
+      * intros x. rewrite in_app_iff, Iids, (inv_descids _ _ I). split.
+        -- intros [H|(c & Hc & Hx)]; [exists (cid, ds); auto|exists c; auto].
+        -- intros (c & [<-|Hc] & Hx); [left; exact Hx|right; exists c; auto].
+      * intros n h. rewrite merge_dims_app, lookup_app. destruct (lookup n nd) as [h'|] eqn:Ln.
+        -- intros _. destruct (X2 n h' Ln) as [Y|(_ & d & Hd & Fq & _)]; [simpl in Y; discriminate|].
+           exists d. split; [apply in_or_app; left; exact Hd|exact Fq].
+        -- intros Hl. destruct (inv_dims1 _ _ I _ _ Hl) as (e & He & Fq). exists e. split; [apply in_or_app; right; exact He|exact Fq].
+      * intros e He. rewrite merge_dims_app, lookup_app. apply in_app_or in He. destruct He as [He|He].
+        -- pose proof (X3 e He) as X. destruct (lookup (d_fq e) nd) as [h'|] eqn:Ln.
+           ++ destruct (X2 _ _ Ln) as [Y|(Y & _)]; [simpl in Y; discriminate|]. rewrite Y in X. exact X.
+           ++ destruct (lookup (d_fq e) (r_dims r)); [subst; reflexivity|discriminate].
+        -- pose proof (inv_dims2 _ _ I e He) as L3. destruct (lookup (d_fq e) nd) as [h'|] eqn:Ln; [|exact L3].
+           destruct (X2 _ _ Ln) as [Y|(Y & _)]; [simpl in Y; discriminate|]. rewrite Y in L3. discriminate.
+      * apply (inv_unch _ _ I).
+      * intros c d [<-|Hc] Hd; [apply GV; exact Hd|apply (inv_gv_regd _ _ I c); assumption].
+      * intros e He. apply in_app_or in He. destruct He as [He|He]; [apply GV; exact He|apply (inv_gv_ever _ _ I); exact He].
+      * constructor; [|apply (inv_disj _ _ I)]. simpl. intros c' x Hc' (d & Hd & ->) Hx.
+        assert (T : existsb (fun d => str_in (hid hash d) (r_descids r)) ds = true).
+        { apply existsb_exists. exists d. split; [exact Hd|]. apply str_in_In. apply (inv_descids _ _ I). exists c'. auto. }
+        rewrite T in Dup. discriminate.
+Qed.
+
+Lemma disj_shared l : disj l -> forall c c0 x, In c l -> In c0 l -> ids_of (snd c) x -> ids_of (snd c0) x -> c = c0.
+Proof.
+  induction 1 as [|c1 l Hd Hl IH]; intros c c0 x Hc Hc0 Hx Hx0; [destruct Hc|].
+  destruct Hc as [<-|Hc], Hc0 as [<-|Hc0].
+  - reflexivity.
+  - exfalso. eapply Hd; eauto.
+  - exfalso. eapply Hd; eauto.
+  - eapply IH; eauto.
+Qed.
+
+Lemma disj_filter p l : disj l -> disj (filter p l).
+Proof.
+  induction 1 as [|c l Hd Hl IH]; simpl; [constructor|].
+  destruct (p c); [|exact IH]. constructor; [|exact IH].
+  intros c' x Hc'. apply filter_In in Hc'. apply Hd. tauto.
+Qed.
+
+Lemma existsb_find {A} (f : A -> bool) l : existsb f l = match find f l with Some _ => true | None => false end.
+Proof. induction l as [|x l IH]; simpl; [reflexivity|]. destruct (f x); [reflexivity|exact IH]. Qed.
+
+Lemma existsb_map_snd {A B} (f : A * B -> bool) (g : B -> bool) (l : list (A * B)) :
+  (forall e, In e l -> f e = g (snd e)) -> existsb f l = existsb g (map snd l).
+Proof.
+  induction l as [|e l IH]; intros H; simpl; [reflexivity|].
+  rewrite <- (H e (or_introl eq_refl)), IH; [reflexivity|]. intros e' He'. apply H. right; exact He'.
+Qed.
+
+Lemma unregister_step r s ds : Inv r s -> (forall d, In d ds -> good K d) ->
+  fst (unregister hash r ds) = fst (spec_unregister s ds) /\
+  Inv (snd (unregister hash r ds)) (snd (spec_unregister s ds)).
+Proof.
+  intros I G. pose proof (gv_of_valid ds G) as GV.
+  set (vs := filter valid ds) in *. set (ids := unreg_ids hash ds).
+  assert (Hids : forall x, In x ids <-> ids_of vs x).
+  { intros x. unfold ids, unreg_ids. rewrite dedup_strs_In, in_map_iff. unfold ids_of. fold vs.
+    split; intros (d & H1 & H2); exists d; auto. }
+  assert (Hkey : forall e, In e (r_colls r) -> seteq_strs ids (fst e) = desc_set_eq vs (snd (snd e))).
+  { intros e He. apply seteq_key; [exact GV| |exact Hids|apply (inv_keys _ _ I); exact He].
+    intros d Hd. apply (inv_gv_regd _ _ I (snd e)); [|exact Hd]. rewrite <- (inv_colls _ _ I). apply in_map. exact He. }
+  assert (Hex : existsb (fun c => desc_set_eq vs (snd c)) (s_regd s) =
+                match find (fun e => seteq_strs ids (fst e)) (r_colls r) with Some _ => true | None => false end).
+  { rewrite <- existsb_find, <- (inv_colls _ _ I). symmetry. apply existsb_map_snd. exact Hkey. }
+  unfold unregister, spec_unregister, find_coll. fold vs. fold ids. rewrite Hex.
+  destruct (find (fun e => seteq_strs ids (fst e)) (r_colls r)) as [e0|] eqn:Fe; [|simpl; auto].
+  simpl. split; [reflexivity|].
+  assert (Hf : forall e, In e (r_colls r) -> negb (seteq_strs ids (fst e)) = negb (desc_set_eq vs (snd (snd e)))).
+  { intros e He. rewrite Hkey; auto. }
+  constructor; simpl.
+  - rewrite <- (inv_colls _ _ I). apply (filter_map_snd _ (fun c => negb (desc_set_eq vs (snd c)))). exact Hf.
+  - intros e He. apply filter_In in He. apply (inv_keys _ _ I). tauto.
+  - intros x. rewrite filter_In, (inv_descids _ _ I), negb_true_iff, str_in_false. split.
+    + intros [(c & Hc & Hx) Hn]. exists c. split; [|exact Hx]. apply filter_In. split; [exact Hc|].
+      apply negb_true_iff. destruct (desc_set_eq vs (snd c)) eqn:E; [|reflexivity]. exfalso. apply Hn. apply Hids.
+      apply (proj1 (desc_set_eq_ids vs (snd c) GV (fun d Hd => inv_gv_regd _ _ I c d Hc Hd)) E). exact Hx.
+    + intros (c & Hc & Hx). apply filter_In in Hc. destruct Hc as [Hc Hn]. apply negb_true_iff in Hn.
+      split; [exists c; auto|]. intros Hin. apply Hids in Hin.
+      (* the collector that is being removed *)
+      apply find_some in Fe. destruct Fe as [He0 Fe]. rewrite (Hkey _ He0) in Fe.
+      assert (Hc0 : In (snd e0) (s_regd s)). { rewrite <- (inv_colls _ _ I). apply in_map. exact He0. }
+      assert (Hx0 : ids_of (snd (snd e0)) x).
+      { apply (proj1 (desc_set_eq_ids vs (snd (snd e0)) GV (fun d Hd => inv_gv_regd _ _ I (snd e0) d Hc0 Hd)) Fe). exact Hin. }
+      pose proof (disj_shared _ (inv_disj _ _ I) c (snd e0) x Hc Hc0 Hx Hx0) as E. subst c. congruence.
+  - apply (inv_dims1 _ _ I).
+  - apply (inv_dims2 _ _ I).
+  - apply (inv_unch _ _ I).
+  - intros c d Hc. apply filter_In in Hc. apply (inv_gv_regd _ _ I). tauto.
+  - apply (inv_gv_ever _ _ I).
+  - apply disj_filter. apply (inv_disj _ _ I).
+Qed.
+
+Lemma gather_names_spec r s : Inv r s -> forall x, In x (gather_names r) <-> In x (spec_names s).
+Proof.
+  intros I x. unfold gather_names, spec_names. rewrite In_sort, dedup_strs_In, <- (inv_colls _ _ I).
+  rewrite !in_flat_map. split.
+  - intros (e & He & Hx). exists (snd e). split; [apply in_map; exact He|exact Hx].
+  - intros (c & Hc & Hx). apply in_map_iff in Hc. destruct Hc as (e & <- & He). exists e. auto.
+Qed.
+
+Definition op_good (o : op) : Prop :=
+  match o with
+  | ORegister _ ds => forall d, In d ds -> good K d
+  | OUnregister ds => forall d, In d ds -> good K d
+  | OGather => True
+  end.
+
+Definition obs_matches (o : obs) (t : sobs) : Prop :=
+  match o, t with
+  | BReg e, TReg se => classify e = se
+  | BUnreg b, TUnreg b' => b = b'
+  | BGather n, TGather n' => forall x, In x n <-> In x n'
+  | _, _ => False
+  end.
+
+Lemma sres_eqb_refl a : sres_eqb a a = true.
+Proof. destruct a; simpl; try reflexivity. apply Z.eqb_refl. Qed.
+
+Lemma step_ok r s o : Inv r s -> op_good o ->
+  obs_ok s o (fst (step hash r o)) = true /\
+  obs_matches (fst (step hash r o)) (fst (spec_step s o)) /\
+  Inv (snd (step hash r o)) (snd (spec_step s o)).
+Proof.
+  intros I G. destruct o as [cid ds|ds|]; simpl in *.
+  - destruct (register_step r s cid ds I G) as (H1 & H2 & H3).
+    destruct (register hash r cid ds) as [e r'], (spec_register s cid ds) as [se s'] eqn:Es. simpl in *.
+    rewrite H1, H2, sres_eqb_refl. auto.
+  - destruct (unregister_step r s ds I G) as (H1 & H2).
+    destruct (unregister hash r ds) as [b r'], (spec_unregister s ds) as [b' s'] eqn:Es. simpl in *.
+    subst b'. rewrite eqb_reflx. auto.
+  - split; [|split; [|exact I]].
+    + apply seteq_strs_spec. apply gather_names_spec. exact I.
+    + apply gather_names_spec. exact I.
+Qed.
+
+Lemma run_ok : forall ops r s, Inv r s -> Forall op_good ops ->
+  spec_check_from s ops (run_from hash r ops) = true /\
+  Forall2 obs_matches (run_from hash r ops) (spec_run_from s ops).
+Proof.
+  induction ops as [|o ops IH]; intros r s I G; simpl; [split; [reflexivity|constructor]|].
+  inversion G as [|? ? Go Gs]; subst.
+  destruct (step_ok r s o I Go) as (H1 & H2 & H3).
+  destruct (step hash r o) as [b r'], (spec_step s o) as [t s'] eqn:Es. simpl in *.
+  destruct (IH r' s' H3 Gs) as [C M]. rewrite H1, C. split; [reflexivity|]. constructor; assumption.
+Qed.
+End Main.
+
+(* ---------- top-level statements ---------- *)
+(* descriptors as the Go code can build them: NewDesc, NewInvalidDesc, wrapDesc *)
+Inductive built : desc -> Prop :=
+| built_new fq help vars consts : built (new_desc fq help vars consts)
+| built_invalid : built invalid_desc
+| built_wrap d p l : built d -> built (wrap_desc d p l).
+
+Lemma built_wf d : built d -> desc_wf d.
+Proof. induction 1; [apply new_desc_wf|apply invalid_desc_wf|apply wrap_desc_wf; assumption]. Qed.
+
+Definition op_descs (o : op) : list desc :=
+  match o with ORegister _ ds => ds | OUnregister ds => ds | OGather => [] end.
+Definition all_descs (ops : list op) : list desc := flat_map op_descs ops.
+(* the byte strings that are hashed anywhere in the history *)
+Definition keys_of (ops : list op) : list str :=
+  flat_map (fun d => [d_idser d; d_dimser d]) (filter valid (all_descs ops)).
+Definition collision_free (hash : str -> str) (keys : list str) : Prop :=
+  forall a b, In a keys -> In b keys -> hash a = hash b -> a = b.
+Definition ops_wf (ops : list op) : Prop := forall d, In d (all_descs ops) -> desc_wf d.
+Definition ops_unambiguous (ops : list op) : bool :=
+  forallb (fun d => d_err d || dim_unambiguous d) (all_descs ops).
+
+Lemma ops_good ops : ops_wf ops -> ops_unambiguous ops = true ->
+  Forall (op_good (fun k => In k (keys_of ops))) ops.
+Proof.
+  intros W U. apply Forall_forall. intros o Ho.
+  assert (H : forall d, In d (op_descs o) -> good (fun k => In k (keys_of ops)) d).
+  { intros d Hd. assert (Hall : In d (all_descs ops)) by (apply in_flat_map; exists o; auto).
+    split; [apply W; exact Hall|]. intros Ed.
+    assert (Hk : forall k, In k [d_idser d; d_dimser d] -> In k (keys_of ops)).
+    { intros k Hk. apply in_flat_map. exists d. split; [|exact Hk]. apply filter_In. split; [exact Hall|].
+      unfold valid. rewrite Ed. reflexivity. }
+    split; [apply Hk; simpl; auto|]. split; [apply Hk; simpl; auto|].
+    unfold ops_unambiguous in U. rewrite forallb_forall in U. specialize (U d Hall). rewrite Ed in U. exact U. }
+  destruct o; simpl in *; auto.
+Qed.
+
+Lemma register_spec_lemma : forall (hash : str -> str) (ops : list op),
+  ops_wf ops -> ops_unambiguous ops = true -> collision_free hash (keys_of ops) ->
+  spec_check ops (run hash ops) = true /\ Forall2 obs_matches (run hash ops) (spec_run ops).
+Proof.
+  intros hash ops W U C. unfold spec_check, run, spec_run.
+  apply (run_ok hash (fun k => In k (keys_of ops)) C); [apply Inv_empty|apply ops_good; assumption].
+Qed.
+
+Lemma built_ops_wf ops : Forall built (all_descs ops) -> ops_wf ops.
+Proof. intros F d Hd. rewrite Forall_forall in F. apply built_wf. auto. Qed.
+
+Lemma register_spec_built_lemma : forall (hash : str -> str) (ops : list op),
+  Forall built (all_descs ops) -> ops_unambiguous ops = true -> collision_free hash (keys_of ops) ->
+  spec_check ops (run hash ops) = true /\ Forall2 obs_matches (run hash ops) (spec_run ops).
+Proof. intros hash ops B. apply register_spec_lemma. apply built_ops_wf. exact B. Qed.
+
+Lemma collision_free_id keys : collision_free hash_id keys.
+Proof. intros a b _ _ H. exact H. Qed.
+
+(* a rejected registration changes nothing (model, any hash, any state) *)
+Lemma rejected_changes_nothing_lemma : forall hash r cid ds,
+  fst (register hash r cid ds) <> RNil -> snd (register hash r cid ds) = r.
+Proof.
+  intros hash r cid ds. unfold register.
+  destruct (reg_loop hash r ds [] [] false) as [e|ni nd dup]; simpl; [reflexivity|].
+  destruct ni as [|i ni]; simpl; [intros H; exfalso; apply H; reflexivity|].
+  destruct (find_coll (i :: ni) (r_colls r)) as [[c ds']|]; simpl; [reflexivity|].
+  destruct dup; simpl; [reflexivity|]. intros H; exfalso; apply H; reflexivity.
+Qed.
+
+(* the specification itself: accepted iff ... *)
+Lemma spec_accept_iff_lemma : forall s cid ds,
+  fst (spec_register s cid ds) = SOk <->
+  ds = [] \/ (all_valid ds = true /\ all_consistent s ds = true /\ clashes s ds = false).
+Proof.
+  intros s cid ds. destruct ds as [|d ds].
+  { simpl. split; auto. }
+  rewrite spec_register_ne by discriminate. split.
+  - destruct (all_valid (d :: ds)); cbn [negb fst snd]; [|discriminate].
+    destruct (all_consistent s (d :: ds)); cbn [negb fst snd]; [|discriminate].
+    destruct (find _ _); cbn [negb fst snd]; [discriminate|].
+    destruct (clashes s (d :: ds)); cbn [negb fst snd]; [discriminate|]. auto.
+  - intros [H|(V & C & Cl)]; [discriminate|]. rewrite V, C. cbn [negb fst snd].
+    destruct (find (fun c => desc_set_eq (d :: ds) (snd c)) (s_regd s)) as [c|] eqn:F.
+    + exfalso. apply find_some in F. destruct F as [Hc E]. unfold desc_set_eq in E. apply andb_true_iff in E.
+      destruct E as [E _]. simpl in E. apply andb_true_iff in E. destruct E as [E _].
+      assert (T : clashes s (d :: ds) = true); [|congruence].
+      unfold clashes. simpl. apply orb_true_iff. left. apply existsb_exists. exists c. auto.
+    + rewrite Cl. reflexivity.
+Qed.
+
+Lemma spec_already_lemma : forall s cid ds c,
+  fst (spec_register s cid ds) = SAlready c ->
+  all_valid ds = true /\ all_consistent s ds = true /\
+  exists ds', In (c, ds') (s_regd s) /\ desc_set_eq ds ds' = true /\ snd (spec_register s cid ds) = s.
+Proof.
+  intros s cid ds c. destruct ds as [|d ds]; [simpl; discriminate|].
+  rewrite spec_register_ne by discriminate.
+  destruct (all_valid (d :: ds)); cbn [negb fst snd]; [|discriminate].
+  destruct (all_consistent s (d :: ds)); cbn [negb fst snd]; [|discriminate].
+  destruct (find (fun c => desc_set_eq (d :: ds) (snd c)) (s_regd s)) as [[c0 ds0]|] eqn:F; cbn [negb fst snd].
+  - intros H. inversion H; subst. apply find_some in F. simpl in F. split; [reflexivity|]. split; [reflexivity|].
+    exists ds0. tauto.
+  - destruct (clashes s (d :: ds)); cbn [negb fst snd]; discriminate.
+Qed.
+
+Lemma id_serialisation_injective_lemma : forall d e,
+  desc_wf d -> desc_wf e -> d_err d = false -> d_err e = false ->
+  d_idser d = d_idser e -> d_fq d = d_fq e /\ map snd (d_consts d) = map snd (d_consts e).
+Proof.
+  intros d e Wd We Ed Ee H.
+  destruct (Wd Ed) as (Ud & Cd & _ & _ & Id & _). destruct (We Ee) as (Ue & Ce & _ & _ & Ie & _).
+  rewrite Id, Ie in H. apply ser_inj in H.
+  - inversion H; auto.
+  - constructor; [apply utf8_valid_no_sep; exact Ud|]. apply Forall_forall. intros v Hv.
+    apply in_map_iff in Hv. destruct Hv as (p & <- & Hp). rewrite Forall_forall in Cd. apply utf8_valid_no_sep, Cd, Hp.
+  - constructor; [apply utf8_valid_no_sep; exact Ue|]. apply Forall_forall. intros v Hv.
+    apply in_map_iff in Hv. destruct Hv as (p & <- & Hp). rewrite Forall_forall in Ce. apply utf8_valid_no_sep, Ce, Hp.
+Qed.
+
+(* the dimension serialisation is injective only up to the two side conditions of dim_unambiguous *)
+Lemma dim_serialisation_injective_lemma : forall d e,
+  desc_wf d -> desc_wf e -> d_err d = false -> d_err e = false ->
+  dim_unambiguous d = true -> dim_unambiguous e = true ->
+  (d_dimser d = d_dimser e <-> agree d e = true).
+Proof.
+  intros d e Wd We Ed Ee Ud Ue.
+  assert (Gd : good (fun _ => True) d) by (split; auto).
+  assert (Ge : good (fun _ => True) e) by (split; auto).
+  rewrite <- (hdim_eqb hash_id (fun _ => True) (fun a b _ _ H => H) d e Gd Ge Ed Ee).
+  unfold hdim, hash_id. symmetry. apply str_eqb_eq.
+Qed.
+
+(* known finding dimhash-0xff: help "h" + const label x  versus  help "h\xffx" without labels *)
+Definition ff_d1 : desc := new_desc [109] [104] [] [([120], [49])].
+Definition ff_d2 : desc := new_desc [109] [104; 255; 120] [] [].
+Definition ff_ops : list op := [ORegister 0 [ff_d1]; ORegister 1 [ff_d2]].
+
+Lemma dimhash_refuted_lemma :
+  exists d e, built d /\ built e /\ d_err d = false /\ d_err e = false /\
+    agree d e = false /\ d_fq d = d_fq e /\ d_dimser d = d_dimser e /\
+    (forall hash, hdim hash d = hdim hash e) /\
+    run hash_id [ORegister 0 [d]; ORegister 1 [e]] = [BReg RNil; BReg RNil] /\
+    spec_run [ORegister 0 [d]; ORegister 1 [e]] = [TReg SOk; TReg SRejected].
+Proof.
+  exists ff_d1, ff_d2. split; [apply built_new|]. split; [apply built_new|].
+  assert (E : d_dimser ff_d1 = d_dimser ff_d2) by (vm_compute; reflexivity).
+  repeat split; try (vm_compute; reflexivity); try exact E.
+Qed.
+
+(* finding dimhash-dollar: const label "$x"  versus  variable label "x" *)
+Definition dl_d1 : desc := new_desc [109] [104] [] [([36; 120], [49])].
+Definition dl_d2 : desc := new_desc [109] [104] [[120]] [].
+
+Lemma dimhash_dollar_refuted_lemma :
+  exists d e, built d /\ built e /\ d_err d = false /\ d_err e = false /\
+    agree d e = false /\ d_fq d = d_fq e /\ d_dimser d = d_dimser e /\
+    (forall hash, hdim hash d = hdim hash e) /\
+    run hash_id [ORegister 0 [d]; ORegister 1 [e]] = [BReg RNil; BReg RNil] /\
+    spec_run [ORegister 0 [d]; ORegister 1 [e]] = [TReg SOk; TReg SRejected].
+Proof.
+  exists dl_d1, dl_d2. split; [apply built_new|]. split; [apply built_new|].
+  assert (E : d_dimser dl_d1 = d_dimser dl_d2) by (vm_compute; reflexivity).
+  repeat split; try (vm_compute; reflexivity); try exact E.
+Qed.
+
+(* the hypotheses are satisfiable, with every kind of outcome *)
+Definition ex_a : desc := new_desc [109] [104] [[108]] [([97], [49])].          (* m{a="1"} vars [l] *)
+Definition ex_a2 : desc := new_desc [109] [104] [[108]] [([97], [50])].         (* m{a="2"} vars [l] *)
+Definition ex_b : desc := new_desc [109] [104; 50] [[108]] [([97], [51])].      (* other help *)
+Definition ex_n : desc := new_desc [110] [104] [] [].
+Definition ex_bad : desc := new_desc [] [104] [] [].
+Definition ex_w : desc := wrap_desc ex_n [112; 95] [].                           (* p_n *)
+Definition ex_ops : list op :=
+  [ ORegister 0 [ex_a; ex_n]; ORegister 1 [ex_n; ex_a; ex_a]; ORegister 2 [ex_a; ex_a2]; ORegister 3 [ex_b];
+    ORegister 4 [ex_bad]; ORegister 5 []; ORegister 6 [ex_w]; OGather; OUnregister [ex_n; ex_a]; OUnregister [ex_n; ex_a];
+    ORegister 7 [ex_b]; ORegister 2 [ex_a; ex_a2]; OGather ].
+
+Lemma ex_ops_hyps : Forall built (all_descs ex_ops) /\ ops_unambiguous ex_ops = true.
+Proof.
+  split; [|vm_compute; reflexivity].
+  unfold ex_ops, all_descs. simpl. repeat constructor; apply built_wrap; constructor.
+Qed.
+
+Lemma ex_ops_run :
+  run hash_id ex_ops =
+  [ BReg RNil; BReg (RAlready 0); BReg RDuplicate; BReg RInconsistent; BReg RInvalid; BReg RNil; BReg RNil;
+    BGather [[109]; [110]; [112; 95; 110]]; BUnreg true; BUnreg false; BReg RInconsistent; BReg RNil;
+    BGather [[109]; [112; 95; 110]] ] /\
+  spec_check ex_ops (run hash_id ex_ops) = true.
+Proof. split; vm_compute; reflexivity. Qed.
+
+Lemma no_desc_unchecked_lemma : forall hash r cid,
+  register hash r cid [] = (RNil, mkReg (r_colls r) (r_descids r) (r_dims r) (r_unchecked r ++ [cid])).
+Proof. reflexivity. Qed.
+
+(* Unregister in the specification: true iff a registered collector has an equal descriptor set;
+   exactly those entries disappear; the "ever registered" history and the unchecked list stay *)
+Lemma spec_unregister_exact_lemma : forall s ds,
+  let vs := filter valid ds in
+  (fst (spec_unregister s ds) = true <-> exists c, In c (s_regd s) /\ desc_set_eq vs (snd c) = true) /\
+  s_regd (snd (spec_unregister s ds)) = filter (fun c => negb (desc_set_eq vs (snd c))) (s_regd s) /\
+  s_ever (snd (spec_unregister s ds)) = s_ever s /\ s_unch (snd (spec_unregister s ds)) = s_unch s.
+Proof.
+  intros s ds vs. unfold spec_unregister. fold vs.
+  destruct (existsb (fun c => desc_set_eq vs (snd c)) (s_regd s)) eqn:E; simpl.
+  - split; [|auto]. split; [intros _|reflexivity]. apply existsb_exists in E. exact E.
+  - split; [split; [discriminate|]|].
+    + intros H. apply existsb_exists in H. congruence.
+    + split; [|auto]. symmetry. apply filter_all. apply forallb_forall. intros c Hc.
+      apply negb_true_iff. destruct (desc_set_eq vs (snd c)) eqn:F; [|reflexivity].
+      assert (existsb (fun c => desc_set_eq vs (snd c)) (s_regd s) = true); [|congruence].
+      apply existsb_exists. exists c. auto.
+Qed.
+
+(* ---------- order and multiplicity of the emitted descriptors do not matter ---------- *)
+Definition ds_equiv {A} (a b : list A) : Prop := forall d, In d a <-> In d b.
+
+Lemma forallb_equiv {A} (f g : A -> bool) a b : (forall x, f x = g x) -> ds_equiv a b -> forallb f a = forallb g b.
+Proof.
+  intros E H. apply eq_iff_eq_true. rewrite !forallb_forall. split; intros F x Hx.
+  - rewrite <- E. apply F, H, Hx.
+  - rewrite E. apply F, H, Hx.
+Qed.
+
+Lemma existsb_equiv {A} (f g : A -> bool) a b : (forall x, f x = g x) -> ds_equiv a b -> existsb f a = existsb g b.
+Proof.
+  intros E H. apply eq_iff_eq_true. rewrite !existsb_exists. split; intros (x & Hx & Fx); exists x.
+  - rewrite <- E. split; [apply H, Hx|exact Fx].
+  - rewrite E. split; [apply H, Hx|exact Fx].
+Qed.
+
+Lemma ds_equiv_nil {A} (a b : list A) : ds_equiv a b -> (a = [] <-> b = []).
+Proof.
+  intros H. split; intros ->.
+  - destruct b as [|x b]; [reflexivity|]. exfalso. apply (proj2 (H x)). left; reflexivity.
+  - destruct a as [|x a]; [reflexivity|]. exfalso. apply (proj1 (H x)). left; reflexivity.
+Qed.
+
+Lemma ds_equiv_filter {A} (f : A -> bool) a b : ds_equiv a b -> ds_equiv (filter f a) (filter f b).
+Proof. intros H x. rewrite !filter_In, (H x). tauto. Qed.
+
+Lemma ds_equiv_app {A} (a a' b b' : list A) : ds_equiv a a' -> ds_equiv b b' -> ds_equiv (a ++ b) (a' ++ b').
+Proof. intros H1 H2 x. rewrite !in_app_iff, (H1 x), (H2 x). tauto. Qed.
+
+Definition creq (c c' : Z * list desc) : Prop := fst c = fst c' /\ ds_equiv (snd c) (snd c').
+Definition sequiv (s s' : sstate) : Prop :=
+  Forall2 creq (s_regd s) (s_regd s') /\ ds_equiv (s_ever s) (s_ever s') /\ s_unch s = s_unch s'.
+
+Lemma existsb_Forall2 {A} (R : A -> A -> Prop) f g l l' :
+  Forall2 R l l' -> (forall c c', R c c' -> f c = g c') -> existsb f l = existsb g l'.
+Proof. induction 1 as [|c c' l l' Hc Hl IH]; intros E; simpl; [reflexivity|]. rewrite (E _ _ Hc), IH; auto. Qed.
+
+Lemma find_Forall2 {A} (R : A -> A -> Prop) f g l l' :
+  Forall2 R l l' -> (forall c c', R c c' -> f c = g c') ->
+  match find f l, find g l' with Some c, Some c' => R c c' | None, None => True | _, _ => False end.
+Proof.
+  induction 1 as [|c c' l l' Hc Hl IH]; intros E; simpl; [exact I|].
+  rewrite <- (E _ _ Hc). destruct (f c); [exact Hc|]. apply IH. exact E.
+Qed.
+
+Lemma filter_Forall2 {A} (R : A -> A -> Prop) f g l l' :
+  Forall2 R l l' -> (forall c c', R c c' -> f c = g c') -> Forall2 R (filter f l) (filter g l').
+Proof.
+  induction 1 as [|c c' l l' Hc Hl IH]; intros E; simpl; [constructor|].
+  rewrite <- (E _ _ Hc). destruct (f c); [constructor; auto|auto].
+Qed.
+
+Lemma in_descs_equiv d a b : ds_equiv a b -> in_descs d a = in_descs d b.
+Proof. intros H. unfold in_descs. apply existsb_equiv; auto. Qed.
+
+Lemma desc_set_eq_equiv a a' b b' : ds_equiv a a' -> ds_equiv b b' -> desc_set_eq a b = desc_set_eq a' b'.
+Proof.
+  intros Ha Hb. unfold desc_set_eq. f_equal.
+  - apply forallb_equiv; [|exact Ha]. intros x. apply in_descs_equiv. exact Hb.
+  - apply forallb_equiv; [|exact Hb]. intros x. apply in_descs_equiv. exact Ha.
+Qed.
+
+Lemma consistent_with_equiv d a b : ds_equiv a b -> consistent_with d a = consistent_with d b.
+Proof. intros H. unfold consistent_with. apply forallb_equiv; auto. Qed.
+
+Lemma all_consistent_equiv s s' a b : ds_equiv (s_ever s) (s_ever s') -> ds_equiv a b ->
+  all_consistent s a = all_consistent s' b.
+Proof.
+  intros He H. unfold all_consistent. apply forallb_equiv; [|exact H].
+  intros x. f_equal; apply consistent_with_equiv; assumption.
+Qed.
+
+Lemma clashes_equiv s s' a b : Forall2 creq (s_regd s) (s_regd s') -> ds_equiv a b -> clashes s a = clashes s' b.
+Proof.
+  intros Hr H. unfold clashes. apply existsb_equiv; [|exact H].
+  intros x. apply (existsb_Forall2 creq); [exact Hr|]. intros c c' [_ Hc]. apply in_descs_equiv. exact Hc.
+Qed.
+
+Lemma spec_register_equiv s s' cid ds ds' : sequiv s s' -> ds_equiv ds ds' ->
+  fst (spec_register s cid ds) = fst (spec_register s' cid ds') /\
+  sequiv (snd (spec_register s cid ds)) (snd (spec_register s' cid ds')).
+Proof.
+  intros (Hr & He & Hu) H.
+  destruct ds as [|d ds].
+  { assert (ds' = []) by (apply (ds_equiv_nil _ _ H); reflexivity). subst ds'. simpl.
+    split; [reflexivity|]. split; [exact Hr|]. split; [exact He|]. simpl. rewrite Hu. reflexivity. }
+  assert (Hn' : ds' <> []). { intros E. apply (ds_equiv_nil _ _ H) in E. discriminate. }
+  rewrite spec_register_ne by discriminate. rewrite (spec_register_ne s' cid ds' Hn').
+  rewrite <- (forallb_equiv valid valid (d :: ds) ds' (fun x => eq_refl) H : all_valid (d :: ds) = all_valid ds').
+  rewrite <- (all_consistent_equiv s s' (d :: ds) ds' He H).
+  assert (Hs : sequiv s s') by exact (conj Hr (conj He Hu)).
+  destruct (all_valid (d :: ds)); cbn [negb]; [|simpl; auto].
+  destruct (all_consistent s (d :: ds)); cbn [negb]; [|simpl; auto].
+  pose proof (find_Forall2 creq (fun c => desc_set_eq (d :: ds) (snd c)) (fun c => desc_set_eq ds' (snd c))
+                _ _ Hr (fun c c' Hc => desc_set_eq_equiv _ _ _ _ H (proj2 Hc))) as F.
+  destruct (find (fun c => desc_set_eq (d :: ds) (snd c)) (s_regd s)) as [c|],
+           (find (fun c => desc_set_eq ds' (snd c)) (s_regd s')) as [c'|]; try contradiction.
+  - simpl. destruct F as [F _]. rewrite F. auto.
+  - rewrite <- (clashes_equiv s s' (d :: ds) ds' Hr H).
+    destruct (clashes s (d :: ds)); simpl; [auto|]. split; [reflexivity|].
+    split; [|split; [|exact Hu]]; simpl.
+    + constructor; [split; [reflexivity|exact H]|exact Hr].
+    + exact (ds_equiv_app (d :: ds) ds' (s_ever s) (s_ever s') H He).
+Qed.
+
+Lemma spec_unregister_equiv s s' ds ds' : sequiv s s' -> ds_equiv ds ds' ->
+  fst (spec_unregister s ds) = fst (spec_unregister s' ds') /\
+  sequiv (snd (spec_unregister s ds)) (snd (spec_unregister s' ds')).
+Proof.
+  intros (Hr & He & Hu) H. unfold spec_unregister.
+  pose proof (ds_equiv_filter valid _ _ H) as Hv.
+  rewrite <- (existsb_Forall2 creq (fun c => desc_set_eq (filter valid ds) (snd c))
+                (fun c => desc_set_eq (filter valid ds') (snd c)) _ _ Hr
+                (fun c c' Hc => desc_set_eq_equiv _ _ _ _ Hv (proj2 Hc))).
+  destruct (existsb (fun c => desc_set_eq (filter valid ds) (snd c)) (s_regd s)); simpl.
+  - split; [reflexivity|]. split; [|split; [exact He|exact Hu]]. simpl.
+    apply (filter_Forall2 creq); [exact Hr|]. intros c c' Hc. f_equal. apply desc_set_eq_equiv; [exact Hv|exact (proj2 Hc)].
+  - split; [reflexivity|]. exact (conj Hr (conj He Hu)).
+Qed.
+
+Lemma spec_names_equiv s s' : sequiv s s' -> forall x, In x (spec_names s) <-> In x (spec_names s').
+Proof.
+  intros (Hr & _ & _) x. unfold spec_names. induction Hr as [|c c' l l' Hc Hl IH]; simpl; [tauto|].
+  rewrite !in_app_iff, IH, !in_map_iff. destruct Hc as [_ Hc].
+  split; (intros [(d & E & Hd)|G]; [left; exists d; split; [exact E|apply Hc; exact Hd]|right; exact G]).
+Qed.
+
+Definition op_equiv (o o' : op) : Prop :=
+  match o, o' with
+  | ORegister c ds, ORegister c' ds' => c = c' /\ ds_equiv ds ds'
+  | OUnregister ds, OUnregister ds' => ds_equiv ds ds'
+  | OGather, OGather => True
+  | _, _ => False
+  end.
+Definition sobs_same (t t' : sobs) : Prop :=
+  match t, t' with
+  | TReg a, TReg b => a = b
+  | TUnreg a, TUnreg b => a = b
+  | TGather n, TGather n' => forall x, In x n <-> In x n'
+  | _, _ => False
+  end.
+(* same outcome: same acceptance / rejection / AlreadyRegistered collector, same Unregister answer,
+   same gathered names *)
+Definition obs_same (o o' : obs) : Prop :=
+  match o, o' with
+  | BReg e, BReg e' => classify e = classify e'
+  | BUnreg a, BUnreg b => a = b
+  | BGather n, BGather n' => forall x, In x n <-> In x n'
+  | _, _ => False
+  end.
+
+Lemma spec_run_equiv : forall ops ops', Forall2 op_equiv ops ops' -> forall s s', sequiv s s' ->
+  Forall2 sobs_same (spec_run_from s ops) (spec_run_from s' ops').
+Proof.
+  induction 1 as [|o o' ops ops' Ho Hops IH]; intros s s' Hs; simpl; [constructor|].
+  destruct o as [c ds|ds|], o' as [c' ds'|ds'|]; simpl in Ho; try contradiction.
+  - destruct Ho as [<- Hd]. destruct (spec_register_equiv s s' c ds ds' Hs Hd) as [E1 E2]. simpl.
+    destruct (spec_register s c ds) as [e t], (spec_register s' c ds') as [e' t']. simpl in *.
+    constructor; [exact E1|apply IH; exact E2].
+  - destruct (spec_unregister_equiv s s' ds ds' Hs Ho) as [E1 E2]. simpl.
+    destruct (spec_unregister s ds) as [e t], (spec_unregister s' ds') as [e' t']. simpl in *.
+    constructor; [exact E1|apply IH; exact E2].
+  - simpl. constructor; [exact (spec_names_equiv s s' Hs)|apply IH; exact Hs].
+Qed.
+
+Lemma compose3 : forall a b, Forall2 obs_matches a b -> forall c d,
+  Forall2 sobs_same b c -> Forall2 obs_matches d c -> Forall2 obs_same a d.
+Proof.
+  induction 1 as [|o t a b Hot Hab IH]; intros c d S M.
+  - inversion S; subst. inversion M; subst. constructor.
+  - inversion S as [|? t' ? c0 Htt' S']; subst. inversion M as [|o' ? d0 ? Hot' M']; subst.
+    constructor; [|eapply IH; eassumption].
+    destruct o, t, t', o'; simpl in *; try contradiction; try congruence.
+    intros x. rewrite (Hot x), (Htt' x), (Hot' x). tauto.
+Qed.
+
+Lemma all_descs_equiv ops ops' : Forall2 op_equiv ops ops' -> ds_equiv (all_descs ops) (all_descs ops').
+Proof.
+  induction 1 as [|o o' ops ops' Ho Hops IH]; [intros d; tauto|].
+  unfold all_descs. simpl. apply ds_equiv_app; [|exact IH].
+  destruct o, o'; simpl in Ho; try contradiction; simpl; try tauto. intros d; tauto.
+Qed.
+
+Lemma register_order_multiplicity_insensitive_lemma : forall (hash : str -> str) (ops ops' : list op),
+  Forall2 op_equiv ops ops' ->
+  ops_wf ops -> ops_unambiguous ops = true -> collision_free hash (keys_of ops) ->
+  Forall2 obs_same (run hash ops) (run hash ops').
+Proof.
+  intros hash ops ops' E W U C.
+  pose proof (all_descs_equiv _ _ E) as A.
+  assert (W' : ops_wf ops') by (intros d Hd; apply W, A, Hd).
+  assert (U' : ops_unambiguous ops' = true).
+  { unfold ops_unambiguous in *. rewrite <- U. symmetry. apply forallb_equiv; auto. }
+  assert (C' : collision_free hash (keys_of ops')).
+  { assert (Hk : forall k, In k (keys_of ops') -> In k (keys_of ops)).
+    { intros k Hk. unfold keys_of in *. apply in_flat_map in Hk. destruct Hk as (d & Hd & Hk).
+      apply in_flat_map. exists d. split; [|exact Hk]. apply (ds_equiv_filter valid _ _ A). exact Hd. }
+    intros a b Ha Hb. apply C; apply Hk; assumption. }
+  destruct (register_spec_lemma hash ops W U C) as [_ M1].
+  destruct (register_spec_lemma hash ops' W' U' C') as [_ M2].
+  eapply compose3; [exact M1| |exact M2].
+  apply spec_run_equiv; [exact E|]. split; [constructor|]. split; [intros d; tauto|reflexivity].
+Qed.
+
+(* which of "invalid" / "inconsistent" is reported does depend on the emission order (first offender wins) *)
+Lemma error_kind_order_dependent_lemma :
+  run hash_id [ORegister 0 [ex_a]; ORegister 1 [ex_bad; ex_b]] = [BReg RNil; BReg RInvalid] /\
+  run hash_id [ORegister 0 [ex_a]; ORegister 1 [ex_b; ex_bad]] = [BReg RNil; BReg RInconsistent].
+Proof. split; vm_compute; reflexivity. Qed.
